@@ -501,8 +501,9 @@ def check_interval_discipline(ctx, f):
             continue            # a copy of one block
         n_ext += 1
         guards = K.dominating_guards(f, b, c.bb)
-        g1 = "PartialOrd::gt(%s, %s) -> else" % (a1, E_hi)
-        g2 = "PartialEq::eq(Block::next(%s), option::Option::Some{0: Block::min(%s)}) -> else" % (E_hi, X)
+        g1 = "%s < %s" % (E_hi, a1)
+        lhs, rhs = sorted(["Block::next(%s)" % E_hi, "option::Option::Some{0: Block::min(%s)}" % X])
+        g2 = "%s == %s" % (lhs, rhs)
         ok = g1 in guards or g2 in guards
         ctx.ob("R-GRD", "%s:merge-raises-upper[%s]" % (short(root_fn(f, b.name)), a1[:60]), ok,
                "%s replaces a stored block by (its min, another block's max) only where that max is larger than the stored one "
